@@ -20,7 +20,11 @@ CLAIM = dict(
     "Lagrange / linear interpolation (tolerance = rounding-error bound of the evaluation, no tuning), polynomials "
     "of every degree < k are reproduced, a degree-k polynomial is NOT (negative control), a reference two-body LEO "
     "arc is met within a rigorous remainder + abscissa-quantisation bound and within centimetres, dates outside "
-    "are refused with ValueError and frame/form tags are kept.",
+    "are refused with ValueError and frame/form tags are kept. Explicit-state part: every history up to depth 3 (quick) / 4 (thorough) "
+    "over 15 operations on ONE Ephem object (interpolate at the first / a middle node, between nodes, in the last interval, propagate, "
+    "in-place form / frame change and coordinate write on a RETURNED point, method = linear / lagrange, order = 4 / 7, ephem.form / "
+    "ephem.frame setters, iteration over a sub-range) is replayed on a fresh object and compared with a model of the ephemeris' current "
+    "settings; a returned point must never be a stored point and the table must never change through a returned point.",
     note="Trusts exact rational arithmetic (fractions), the reference two-body model (mc/ref/twobody.py, self-tested) "
     "and the Fourier/Bessel derivative bound of Kepler motion (self-checked against the reference at import of the "
     "unit). Takes beyond.constants.Earth.mu and the library's form/frame conversions (for the tag check only) as data.",
@@ -28,15 +32,17 @@ CLAIM = dict(
     "one-hot window monitoring; rigorous error bounds",
 )
 RULE = (
-    "case = (part, order k, table length n, sampling, method, query); queries: every node, every interval midpoint, "
+    "part E: state = operation history on one fresh Ephem object (rebuilt by replay), all histories over the 15-operation alphabet up to "
+    "the depth bound, pruned only where a mutation has no returned point to act on or where the prefix already violated; distinct by "
+    "history, non-trivial when longer than one operation. Parts A-D: case = (part, order k, table length n, sampling, method, query); queries: every node, every interval midpoint, "
     "node +- 2^-10 s (Interp) / +- 1 ms (Ephem) for every node, first and last node, outside by 1 ms / 2 us / 1 ulp. "
     "Every case exercises the binary search + window selection at a distinct (bracket index, offset) position, so "
     "every case with a query strictly between two nodes is non-trivial; cases are distinct by construction."
 )
 BOUNDS = {
-    "quick": "orders 2..12 x n in {k,k+1,k+2,2k+1,30} x {uniform 60 s, cyclic 60/45/75/50 s} x {lagrange, linear}; "
+    "quick": "histories on one Ephem: depth <= 3 over 15 operations; orders 2..12 x n in {k,k+1,k+2,2k+1,30} x {uniform 60 s, cyclic 60/45/75/50 s} x {lagrange, linear}; "
     "Kepler arcs: circular + e=0.0012 LEO at 60 s and 10 s (uniform and non-uniform); 3 frame/form pairs",
-    "thorough": "same product (it is already the full product of DESIGN §4 C09) plus table lengths 3k and 64, a third "
+    "thorough": "histories on one Ephem: depth <= 4; same product (it is already the full product of DESIGN §4 C09) plus table lengths 3k and 64, a third "
     "sampling pattern (cyclic 60/50/70/55/65 s) and a second eccentric arc (e=0.01)",
 }
 ASSUMPTIONS = [
@@ -592,6 +598,261 @@ def check_D(k, n, method, t, only=None):
 
 
 # ---------------------------------------------------------------------------
+# part E: explicit-state histories on ONE Ephem object
+#
+# state = history of operations applied to a fresh ephemeris (rebuilt by replay); after the last operation of every
+# history the model (table in the CURRENT form/frame, CURRENT method and order, actual MJD abscissae as data, exact
+# rational Lagrange / linear interpolation) is compared with the object, and the two structural invariants are checked:
+# a returned point is never a stored point, and the stored table never changes through a returned point.
+
+E_OPS = ["in0", "inM", "im", "ie", "pr", "mf", "mr", "mw", "sl", "sg", "o4", "o7", "ef", "er", "it"]
+E_N = 12
+E_QUERY = {"im": Fr(655, 2), "ie": Fr(1207, 2), "pr": Fr(401)}  # seconds: mid-table, last interval, near a node
+E_MIDNODE = 5
+
+
+class EphemModel:
+    """What the ephemeris must be after a history: settings + private copies of the points on which the same public
+    form/frame setters are applied (the library's conversions are data here, C01/C02 decide them)."""
+
+    def __init__(self):
+        import numpy as np
+        from beyond.constants import Earth
+        from beyond.orbits import StateVector
+        from mc.ref import twobody as tb
+
+        el = ARCS["iss-like"]
+        rv0 = tb.kep_to_cart(el["a"], el["e"], el["i"], el["Om"], el["w"], el["nu"], Earth.mu)
+        self.ts = table_times(E_N, "cyclic4", 60)
+        self.dates = [_date(x) for x in self.ts]
+        self.raw = [tb.propagate_uv(rv0, float(x), Earth.mu) for x in self.ts]
+        self.points = [StateVector(self.raw[j], self.dates[j], "cartesian", "EME2000") for j in range(E_N)]
+        self.method, self.order, self.form, self.frame = "lagrange", 8, "cartesian", "EME2000"
+        self.used = False  # interpolator built
+        self.poisoned = False  # ephem.form / ephem.frame set after the first use
+
+    def fresh_ephem(self):
+        from beyond.orbits import Ephem, StateVector
+
+        return Ephem([StateVector(self.raw[j], self.dates[j], "cartesian", "EME2000") for j in range(E_N)])
+
+    def table(self):
+        import numpy as np
+
+        return [np.array(p, dtype=float) for p in self.points]
+
+    def expected(self, date):
+        """Exact interpolant(s) at `date` for the current settings: list of (values, tolerances), one per acceptable window."""
+        xs = [Fr(d._mjd) for d in self.dates]
+        x = Fr(date._mjd)
+        tab = [[Fr(v) for v in row.tolist()] for row in self.table()]
+        i = 0
+        for j in range(E_N - 1):
+            if xs[j] < x:
+                i = j
+        out = []
+        if self.method == "linear":
+            th = (x - xs[i]) / (xs[i + 1] - xs[i])
+            vals = [tab[i][c] * (1 - th) + tab[i + 1][c] * th for c in range(6)]
+            tols = [6 * U * (abs(tab[i][c]) + abs(tab[i + 1][c])) for c in range(6)]
+            return [(vals, tols)]
+        k = self.order
+        for s0 in sorted(acceptable_windows(E_N, k, i)):
+            ls = basis(xs, s0, k, x)
+            vals = [sum(l * tab[j][c] for j, l in zip(range(s0, s0 + k), ls)) for c in range(6)]
+            tols = [8 * k * U * sum(abs(l * tab[j][c]) for j, l in zip(range(s0, s0 + k), ls)) for c in range(6)]
+            out.append((vals, tols))
+        return out
+
+
+def _e_apply(op, eph, M, last, checks, t, case):
+    """Apply one operation to the real object and to the model.  Returns (new last returned point, list of results to
+    check [(kind, date, node index or None, returned object)])."""
+    import numpy as np
+    from beyond.dates import timedelta
+
+    res = []
+    if op in ("in0", "inM"):
+        j = 0 if op == "in0" else E_MIDNODE
+        r = eph.interpolate(_date(M.ts[j]))
+        res.append(("node", M.dates[j], j, r))
+        last, M.used = r, True
+    elif op in ("im", "ie", "pr"):
+        d = _date(E_QUERY[op])
+        r = eph.propagate(d) if op == "pr" else eph.interpolate(d)
+        res.append(("mid", d, None, r))
+        last, M.used = r, True
+    elif op == "it":
+        a, b = M.dates[2], M.dates[6]
+        got = list(eph.iter(start=a, stop=b, step=timedelta(seconds=40)))
+        d, k = a, 0
+        while d <= b:
+            if k >= len(got):
+                break
+            j = [i for i, x in enumerate(M.dates) if x == d]
+            res.append(("node" if j else "mid", d, j[0] if j else None, got[k]))
+            d, k = d + timedelta(seconds=40), k + 1
+        if k != len(got) or d <= b:
+            res.append(("count", None, None, (k, len(got))))
+        own = list(eph.iter(start=a, stop=b))
+        for j, r in zip(range(2, 7), own):
+            res.append(("node", M.dates[j], j, r))
+        if len(own) != 5:
+            res.append(("count", None, None, (5, len(own))))
+        last, M.used = (got[-1] if got else last), True
+    elif op == "mf":  # in-place form change of a RETURNED point (normal API)
+        last.form = "keplerian" if last.form.name == "cartesian" else "cartesian"
+    elif op == "mr":
+        last.frame = "TOD" if last.frame.name == "EME2000" else "EME2000"
+    elif op == "mw":
+        last[0] = last[0] + 1000.0
+        last[4] = -last[4]
+    elif op in ("sl", "sg"):
+        eph.method = M.method = "linear" if op == "sl" else "lagrange"
+    elif op in ("o4", "o7"):
+        eph.order = M.order = 4 if op == "o4" else 7
+    elif op == "ef":
+        new = "keplerian" if M.form == "cartesian" else "cartesian"
+        eph.form = new
+        for p_ in M.points:
+            p_.form = new
+        M.form = new
+        M.poisoned = M.poisoned or M.used
+    elif op == "er":
+        new = "TOD" if M.frame == "EME2000" else "EME2000"
+        eph.frame = new
+        for p_ in M.points:
+            p_.frame = new
+        M.frame = new
+        M.poisoned = M.poisoned or M.used
+    else:
+        raise ValueError(op)
+    return last, res
+
+
+def e_valid(hist):
+    """A mutation of 'the last returned point' needs a returned point."""
+    have = False
+    for op in hist:
+        if op in ("mf", "mr", "mw") and not have:
+            return False
+        if op in ("in0", "inM", "im", "ie", "pr", "it"):
+            have = True
+    return True
+
+
+def _e_class(hist):
+    """Class of the most recent state-changing operation before the last one (for the signature)."""
+    for op in reversed(hist[:-1] if hist[-1] in ("in0", "inM", "im", "ie", "pr", "it") else hist):
+        if op in ("mf", "mr", "mw"):
+            return "after-returned-point-mutation"
+        if op in ("sl", "sg"):
+            return "after-method-change"
+        if op in ("o4", "o7"):
+            return "after-order-change"
+        if op in ("ef", "er"):
+            return "after-ephem-form-or-frame-change"
+    return "plain"
+
+
+def check_E(hist, t):
+    """Replay `hist` on a fresh Ephem; check everything after the LAST operation.  Returns True if no violation."""
+    import numpy as np
+
+    case = dict(part="E", hist=list(hist))
+    M = EphemModel()
+    eph = M.fresh_ephem()
+    last, res = None, []
+    for i, op in enumerate(hist):
+        try:
+            last, res = _e_apply(op, eph, M, last, i == len(hist) - 1, t, case)
+            t.trans()
+        except Exception as e:
+            if isinstance(e, (AssertionError,)) or i < len(hist) - 1:
+                raise
+            t.fail("ephem/history/raises/" + _e_class(hist), "every operation of the public API succeeds on a valid ephemeris", case,
+                   "value", repr(e), f"operation {op} after {hist[:-1]}")
+            return False
+    t.states_add(1)
+    ok = True
+    cls = _e_class(hist)
+    stale = M.poisoned
+    # -- results of the last operation ----------------------------------------------------------------------
+    for kind, d, j, r in res:
+        if kind == "count":
+            t.fail("ephem/history/iter-count", "iteration over a sub-range yields the requested dates", case, r[0], r[1])
+            ok = False
+            continue
+        # a returned point is never a stored point
+        if any(r is eph[i] for i in range(E_N)) or any(np.shares_memory(np.asarray(r), np.asarray(eph[i])) for i in range(E_N)):
+            t.fail("ephem/history/returned-point-is-stored-point", "a returned point is a point of its own, never the ephemeris' stored point",
+                   case, "a new object", f"identical to / sharing memory with a stored point ({kind} query)", f"history {hist}")
+            ok = False
+        tags = [r.form.name, r.frame.name, bool(r.date == d)]
+        if tags != [M.form, M.frame, True]:
+            t.fail(f"ephem/history/tags/{cls}", "an interpolated point keeps the ephemeris' (current) frame and form", case,
+                   [M.form, M.frame, True], tags, f"history {hist}")
+            ok = False
+            continue
+        got = np.array(r, dtype=float)
+        if kind == "node":
+            want = M.table()[j]
+            if not np.array_equal(got, want):
+                sig = "ephem/history/value/ephem-form-or-frame-set-after-first-use" if stale else f"ephem/history/node-value/{cls}"
+                t.fail(sig, "interpolating at one of its own dates returns that point exactly (in the ephemeris' current form/frame)", case,
+                       want.tolist(), got.tolist(), f"node {j}, history {hist}, max diff {np.max(np.abs(got - want)):.3e}")
+                ok = False
+        else:
+            best = None
+            for vals, tols in M.expected(d):
+                ratio = max((abs(Fr(got[c]) - vals[c]) / tols[c]) if tols[c] else (0 if Fr(got[c]) == vals[c] else 10 ** 9) for c in range(6))
+                best = ratio if best is None or ratio < best else best
+            if stale and best > 1:
+                t.fail("ephem/history/value/ephem-form-or-frame-set-after-first-use", "an interpolated point is the interpolant of the table "
+                       "in the ephemeris' current form and frame", case, [float(v) for v in M.expected(d)[0][0]], got.tolist(),
+                       f"history {hist}: error/tolerance = {float(best):.3e}")
+                ok = False
+            elif not t.margin("E history: |result - exact interpolant (current settings)| / (8k u S)", float(best), 1.0, case):
+                t.fail(f"ephem/history/value/{cls}", "an interpolated point is the Lagrange (order k) / linear interpolant of the table for the "
+                       "ephemeris' current method, order, form and frame", case, [float(v) for v in M.expected(d)[0][0]], got.tolist(),
+                       f"history {hist}: method={M.method} order={M.order} form={M.form}: error/tolerance = {float(best):.3e}")
+                ok = False
+    # -- invariants of the object ------------------------------------------------------------------------------
+    tab = M.table()
+    for j in range(E_N):
+        sj = eph[j]
+        if (sj.form.name, sj.frame.name) != (M.form, M.frame) or not np.array_equal(np.array(sj, dtype=float), tab[j]):
+            t.fail(f"ephem/history/table-changed/{cls}", "the stored table never changes through a returned point (only through the "
+                   "ephemeris' own form/frame setters)", case, [M.form, M.frame, tab[j].tolist()],
+                   [sj.form.name, sj.frame.name, np.array(sj, dtype=float).tolist()], f"stored point {j} after {hist}")
+            ok = False
+            break
+    rb = [eph.method, eph.order, eph.form.name, eph.frame.name, len(eph)]
+    if rb != [M.method, M.order, M.form, M.frame, E_N]:
+        t.fail("ephem/history/setting-readback", "method / order / form / frame read back what was set", case,
+               [M.method, M.order, M.form, M.frame, E_N], rb, f"history {hist}")
+        ok = False
+    t.ev(("E", tuple(hist)) if len(hist) > 1 else None)
+    t.outcome(("E", hist[-1], M.method, M.order, M.form, M.frame, bool(res)))
+    return ok
+
+
+def run_E(prefix, depth, t):
+    def rec(hist):
+        if not e_valid(hist):
+            return
+        if not check_E(hist, t):
+            return  # violated (or form/frame set after first use): do not explore extensions of a broken state
+        if len(hist) == depth and len(t.samples) < 2:
+            t.sample(dict(part="E", hist=list(hist)))
+        if len(hist) < depth:
+            for op in E_OPS:
+                rec(hist + [op])
+
+    rec(list(prefix))
+
+
+# ---------------------------------------------------------------------------
 # engine interface
 
 
@@ -604,6 +865,16 @@ def units(tier, seed):
             u.append((cfg, dict(part="B", k=k, method=method, tier=tier)))
             u.append((cfg, dict(part="D", k=k, method=method, tier=tier)))
         u.append((cfg, dict(part="C", k=k, tier=tier)))
+    # part E: histories on one Ephem object; every prefix of length 1 (quick) / 2 (thorough) is a unit, the prefixes
+    # themselves are checked by the unit of their first element
+    depth = 3 if tier == "quick" else 4
+    for a in E_OPS:
+        if tier == "quick":
+            u.append((cfg, dict(part="E", prefix=[a], depth=depth, tier=tier)))
+        else:
+            u.append((cfg, dict(part="E", prefix=[a], depth=1, tier=tier)))
+            for b in E_OPS:
+                u.append((cfg, dict(part="E", prefix=[a, b], depth=depth, tier=tier)))
     if seed:
         r = seed % len(u)
         u = u[r:] + u[:r]
@@ -618,6 +889,11 @@ def setup(config):
 
 
 def run_unit(p, t):
+    if p["part"] == "E":
+        if len(p["prefix"]) == 2 and (not e_valid(p["prefix"][:1]) or not _e_prefix_ok(p["prefix"][:1])):
+            return
+        run_E(p["prefix"], p["depth"], t)
+        return
     tier, k = p["tier"], p["k"]
     if p["part"] == "A":
         for n in lengths(k, tier):
@@ -640,8 +916,18 @@ def run_unit(p, t):
             check_D(k, n, p["method"], t)
 
 
+def _e_prefix_ok(hist):
+    """Silent evaluation of a prefix (thorough tier: units start at depth 2; a broken prefix is not extended)."""
+    from mc import engine
+
+    return check_E(hist, engine.Tally())
+
+
 def replay(case, t):
     part = case["part"]
+    if part == "E":
+        check_E(case["hist"], t)
+        return
     if part == "A":
         check_A(case["k"], case["n"], case["sampling"], case["method"], t, only=case["q"])
     elif part == "B":
